@@ -34,6 +34,17 @@ def literal_program(rng):
             "const e%d = new RegExp(x, %s);" % (rng.randrange(99), v),
             "const e%d = new RegExp;" % rng.randrange(99),
             "foo(%s);" % v,
+            # literals in less common expression positions (computed keys next to every kind of value, members, defaults, patterns...)
+            "const p%d = { [%s]: %s, [%s + k]: k, [%s]: [%s], [`t${%s}`]: %s };" % (rng.randrange(99), v, v, v, v, v, v, v),
+            "const q%d = { [%s]() { return %s; }, get [%s]() { return 1; }, m: (a = %s) => a, ...{ s: %s } };" % (rng.randrange(99), v, v, v, v, v),
+            "class M%d { [%s] = %s; static [%s]() { return %s; } #priv = %s; static { z = %s; } }" % (rng.randrange(99), v, v, v, v, v, v),
+            "function d%d(a = %s, { b = %s } = {}, [c = %s] = []) { return a; }" % (rng.randrange(99), v, v, v),
+            "const { [%s]: alias%d = %s } = o;" % (v, rng.randrange(99), v),
+            "o[%s] = o?.[%s] ?? tag`t${%s}`;" % (v, v, v),
+            "switch (x) { case %s: y = %s; break; default: throw new Error(%s); }" % (v, v, v),
+            "for (const e of [%s, %s]) { lbl: if (e === %s) break lbl; }" % (v, v, v),
+            "x = typeof %s, y = void %s, z = (%s, %s);" % (v, v, v, v),
+            "async function h%d() { await %s; for await (const c of g(%s)) yield_(%s); }" % (rng.randrange(99), v, v, v),
             "x = cond ? %s : `tpl ${%s}`;" % (v, v),
             "class K%d { p = %s; m() { return %s.trim(); } }" % (rng.randrange(99), v, v),
             "  \t  y = %s;" % v,
